@@ -7,7 +7,7 @@ Open Scope Z_scope.
 
 Definition Rs (s : pst) (ss : sst) : Prop :=
   maxAl (p_rd s) = maxAl (s_rd ss) /\ alignOnly (p_rd s) = alignOnly (s_rd ss) /\
-  p_fmt s = s_fmt ss /\ s_size ss = len (p_w s) mod W /\ 0 < maxAl (p_rd s) <= 16.
+  p_fmt s = s_fmt ss /\ s_size ss = len (p_w s) /\ 0 < maxAl (p_rd s) <= 16.
 
 Definition SimS (kp : pst -> pres) (ks : sst -> sres) : Prop :=
   forall s s1 ss ss1, Rs s ss -> kp s = PCont s1 -> ks ss = SCont ss1 -> Rs s1 ss1.
@@ -30,21 +30,27 @@ Qed.
 Lemma add_mod_l a b : (a mod W + b) mod W = (a + b) mod W.
 Proof. apply Zplus_mod_idemp_l. Qed.
 
+Lemma s_inc_inv k ss ss1 : s_inc k ss = SCont ss1 ->
+  ss1 = mkS (s_rd ss) (s_fmt ss) (s_size ss + k) /\ k <= maxint - s_size ss.
+Proof.
+  unfold s_inc. destruct (Z.ltb_spec (maxint - s_size ss) k); [discriminate|]. intros E; injection E as <-. auto.
+Qed.
+
 Lemma simS_leaf (bsf : pst -> list Z) v k :
   (forall s, len (bsf s) = k) ->
   SimS (fun s => PCont (p_emit (p_write s (bsf s)) v)) (s_inc k).
 Proof.
-  intros HL s s1 ss ss1 (A & B & C & D & E) EP ES. injection EP as <-. unfold s_inc in ES. injection ES as <-.
+  intros HL s s1 ss ss1 (A & B & C & D & E) EP ES. injection EP as <-. apply s_inc_inv in ES. destruct ES as [-> _].
   unfold Rs. cbn [p_emit p_write p_rd p_fmt p_w s_rd s_fmt s_size].
-  rewrite D, add_mod_l, len_app, HL. auto.
+  rewrite D, len_app, HL. auto.
 Qed.
 
 Lemma simS_leaf_w (bs : list Z) k : len bs = k ->
   SimS (fun s => PCont (p_write s bs)) (s_inc k).
 Proof.
-  intros HL s s1 ss ss1 (A & B & C & D & E) EP ES. injection EP as <-. unfold s_inc in ES. injection ES as <-.
+  intros HL s s1 ss ss1 (A & B & C & D & E) EP ES. injection EP as <-. apply s_inc_inv in ES. destruct ES as [-> _].
   unfold Rs. cbn [p_write p_rd p_fmt p_w s_rd s_fmt s_size].
-  rewrite D, add_mod_l, len_app, HL. auto.
+  rewrite D, len_app, HL. auto.
 Qed.
 
 Lemma simS_align n kp ks : 0 <= n -> SimS kp ks ->
@@ -65,15 +71,35 @@ Proof.
   - set (n' := if maxAl (p_rd s) <? n then maxAl (p_rd s) else n) in *.
     destruct (is_pow2 n') eqn:PW; cbn [negb] in *; [|discriminate].
     assert (Hn' : 0 < n' <= 16) by (subst n'; destruct (Z.ltb_spec (maxAl (p_rd s)) n); lia).
-    eapply GO; [| | |exact EP|exact ES]; try reflexivity.
-    unfold Rs. cbn [p_write p_rd p_fmt p_w s_rd s_fmt s_size].
-    split; [exact A|split; [exact B|split; [exact C|split; [|exact E]]]].
-    rewrite D, add_mod_l, len_app. f_equal. f_equal.
-    unfold pad_to. rewrite mod_mod_div by (try lia; apply pow2_div; auto).
-    pose proof (Z.mod_pos_bound (len (p_w s)) n' ltac:(lia)).
-    destruct (Z.eqb_spec (len (p_w s) mod n') 0).
-    + reflexivity.
-    + rewrite len_zeros by lia. reflexivity.
+    set (p := pad_to n' (len (p_w s))) in *.
+    replace (pad_to n' (s_size ss)) with p in ES by (subst p; now rewrite D).
+    pose proof (pad_to_range n' (len (p_w s)) ltac:(lia)) as Hp0. fold p in Hp0.
+    destruct (Z.eqb_spec p 0) as [P0|PN].
+    + eapply GO; [| | |exact EP|exact ES]; try reflexivity.
+      unfold Rs. cbn [p_write p_rd p_fmt p_w]. rewrite P0. cbn [zeros Z.to_nat repeat]. rewrite app_nil_r. auto.
+    + destruct (s_inc p ss) as [ss0|] eqn:EI; [|discriminate]. apply s_inc_inv in EI. destruct EI as [-> _].
+      eapply GO; [| | |exact EP|exact ES]; try reflexivity.
+      unfold Rs. cbn [p_write p_rd p_fmt p_w s_rd s_fmt s_size].
+      rewrite D, len_app, len_zeros by lia. auto.
+Qed.
+
+Lemma getOptSize_go_nonneg fmt : forall n ok e ok' m rest, 0 <= n ->
+  getOptSize_go fmt n ok = ((e, ok', m), rest) -> 0 <= m.
+Proof.
+  induction fmt as [|c f IH]; intros n ok e ok' m rest Hn E; cbn [getOptSize_go] in E.
+  - injection E as _ _ <- _. exact Hn.
+  - destruct (is_digit c).
+    + destruct (maxDecuplable <? n); [injection E as _ _ <- _; exact Hn|].
+      destruct ((n * 10 + (c - 48)) mod W <? c - 48); [injection E as _ _ <- _; exact Hn|].
+      eapply IH; [|exact E]. apply Z.mod_pos_bound. unfold W; lia.
+    + injection E as _ _ <- _. exact Hn.
+Qed.
+
+Lemma mustGetOptSize_nonneg fmt n rest : mustGetOptSize fmt = (inr n, rest) -> 0 <= n.
+Proof.
+  unfold mustGetOptSize, getOptSize. destruct (getOptSize_go fmt 0 false) as [[[e ok] m] rs] eqn:E.
+  apply getOptSize_go_nonneg in E; [|lia]. destruct e; [discriminate|]. destruct ok; [|discriminate].
+  intros H; injection H as <- _. exact E.
 Qed.
 
 Lemma Rs_pop s ss vs : Rs s ss -> Rs (p_pop s vs) ss.
@@ -186,26 +212,32 @@ Proof.
     destruct (mustGetOptSize (p_fmt s)) as [[e|n] rest] eqn:SS; [discriminate|].
     unfold p_next_str, p_next in EP. cbn [p_set_fmt p_vals] in EP.
     destruct (p_vals s) as [|v vs]; [discriminate|]. destruct (to_str v) as [str| |]; try discriminate.
-    unfold p_write_str in EP.
+    unfold p_write_str in EP. cbn [andb] in EP.
+    match type of EP with match (if ?c then _ else _) with _ => _ end = _ => destruct c eqn:EG; [discriminate|] end.
     match type of EP with match (if ?c then _ else _) with _ => _ end = _ => destruct c eqn:ED; [discriminate|] end.
-    injection EP as <-. unfold s_inc in ES. injection ES as <-. apply Z.ltb_ge in ED.
+    injection EP as <-. apply s_inc_inv in ES. destruct ES as [-> LE]. apply Z.ltb_ge in ED.
     unfold Rs. cbn [p_emit p_write p_pop p_set_fmt p_rd p_fmt p_w s_rd s_fmt s_size].
     split; [exact A|split; [exact B|split; [reflexivity|split; [|exact E]]]].
-    rewrite D, add_mod_l, !len_app, len_zeros by lia.
-    replace (len (p_w s) + (len str + (to_i64 n - len str))) with (len (p_w s) + to_i64 n) by lia.
-    rewrite <- (Zplus_mod_idemp_r n), <- (Zplus_mod_idemp_r (to_i64 n)). f_equal. f_equal.
-    unfold to_i64. destruct (n mod W <? Model.H); [now rewrite Z.mod_mod by (unfold W; lia)|].
-    rewrite <- (Z.mod_add (n mod W - W) 1 W) by (unfold W; lia). rewrite Z.mul_1_l.
-    replace (n mod W - W + W) with (n mod W) by lia. now rewrite Z.mod_mod by (unfold W; lia).
+    rewrite D, !len_app, len_zeros by lia.
+    assert (N0 : 0 <= n) by (eapply mustGetOptSize_nonneg; eauto).
+    pose proof (len_nonneg (p_w s)). cbn [s_size] in LE. rewrite D in LE.
+    rewrite (to_i64_small n) by (unfold maxint, Model.H in *; lia). lia.
   - (* z *) intros s s1 ss ss1 _ _ ES. discriminate.
-  - (* s *) intros s s1 ss ss1 _ _ ES. discriminate.
+  - (* s: after X only the alignment is used *)
+    intros s s1 ss ss1 HR EP ES. pose proof HR as (A & B & C & D & E). rewrite <- C, <- B in ES.
+    destruct (alignOnly (p_rd s)) eqn:AO; [|discriminate].
+    destruct (smallOptSize 8 (p_fmt s)) as [[e|n] rest] eqn:SS; [discriminate|].
+    destruct (smallOptSize_pos 8 _ _ _ ltac:(lia) SS) as [Hn Hn'].
+    assert (HR' : Rs (p_set_fmt s rest) (mkS (s_rd ss) rest (s_size ss))) by (unfold Rs; cbn; repeat split; auto; try congruence; lia).
+    revert HR' EP ES. apply (simS_align n _ (fun _ => SFail EVariableLength) ltac:(lia)).
+    intros ? ? ? ? _ _ F. discriminate F.
   - (* x *) apply simS_align; [lia|]. apply (simS_leaf_w [0] 1). reflexivity.
   - (* X *) intros s s1 ss ss1 (A & B & C & D & E) EP ES. injection EP as <-. injection ES as <-. unfold Rs; cbn; auto.
   - (* space *) intros s s1 ss ss1 (A & B & C & D & E) EP ES. injection EP as <-. injection ES as <-. unfold Rs; cbn; auto.
 Qed.
 
 Lemma loop_size : forall fuel s ss out packed n,
-  Rs s ss -> pack_go fuel s = POk out packed -> size_go fuel ss = SOk n -> n = len out mod W.
+  Rs s ss -> pack_go fuel s = POk out packed -> size_go fuel ss = SOk n -> n = len out.
 Proof.
   induction fuel as [|f IH]; intros s ss out packed n HR EP ES; [discriminate|].
   cbn [pack_go size_go] in *. pose proof HR as (A & B & C & D & E). rewrite <- C, <- B in ES.
@@ -218,10 +250,10 @@ Proof.
     exact (IH s' ss' out packed n (opt_simS c _ _ _ _ HR0 E1 E2) EP ES).
 Qed.
 
-(* string.packsize(fmt) is the length of string.pack(fmt, ...) (modulo 2^64, the width of the
-   Go uint in which PackSize counts), whenever both succeed — i.e. for fixed-size formats *)
+(* string.packsize(fmt) is the length of string.pack(fmt, ...) whenever both succeed — i.e. for
+   fixed-size formats (round 6: PackSize raises "format result too large" instead of wrapping) *)
 Theorem packsize_agrees : forall fmt vs out packed n,
-  pack fmt vs = POk out packed -> packsize fmt = SOk n -> n = len out mod W.
+  pack fmt vs = POk out packed -> packsize fmt = SOk n -> n = len out.
 Proof.
   intros fmt vs out packed n EP ES. unfold pack in EP. unfold packsize in ES.
   refine (loop_size _ _ _ out packed n _ EP ES). unfold Rs. cbn. repeat split; auto; lia.
